@@ -54,6 +54,8 @@ def run(ctx):
     for root in big3:
         hits, allowed = interior_mut(prog, root)
         for t, path in hits:
+            if any("receipt_correlation_full_scan_count" in x for x in path):
+                continue  # host_test-only diagnostic counter (a Cell<usize>), absent from production builds
             owner = [p_ for p_ in path if p_.startswith("warp_core::") or p_.startswith("echo_")]
             cells.append((root.rsplit("::", 1)[-1], owner[-1] if owner else path[-1]))
         rep.note("%s: %d refcount-only cells allowed" % (root, len(allowed)))
